@@ -204,6 +204,104 @@ func runC15(c *Ctx) {
 		c.verdict(okDel, c.nm(fn)+" | the confirmation arm deletes from the pending set immediately", c.P.Pos(fn.Pos()), "delete in the receiving arm", "the arm receiving a confirmation no longer removes the transaction right away")
 	})
 
+	c.rule("C15.O1", "every block event and every interval tick starts a rebroadcast unless one is still running: in broadcastHandler's loop the arm that receives from the block subscription's Notifications channel and the arm of the interval ticker both reach the rebroadcast trigger (the non-blocking take of the semaphore token, written out or in the trigger closure) before the next round, on every path; the only way past it is the edge on which the Notifications channel was found closed (a notification that is looked at and skipped - a height already seen, a kind not of interest - leaves the pending transactions unannounced after exactly the events the property names: the block that connects at the height of a disconnected one, in a reorganisation)", func() {
+		fn := c.fn(fnBHandler)
+		var sem *ssa.MakeChan
+		ir.Instrs(fn, func(in ssa.Instruction) {
+			if mk, ok := in.(*ssa.MakeChan); ok {
+				if k, isC := ir.ConstInt(mk.Size); isC && k == 1 {
+					sem = mk
+				}
+			}
+		})
+		if sem == nil {
+			panic(anchorErr{"rebroadcast semaphore (chan of capacity 1) in broadcastHandler"})
+		}
+		isSemIn := func(f *ssa.Function) func(ssa.Value) bool {
+			return func(v ssa.Value) bool {
+				return ir.DerivesFrom(v, func(x ssa.Value) bool {
+					if x == ssa.Value(sem) {
+						return true
+					}
+					fv, ok := x.(*ssa.FreeVar)
+					return ok && (fv.Type().String() == types.NewPointer(sem.Type()).String() || fv.Type().String() == sem.Type().String())
+				})
+			}
+		}
+		takes := func(f *ssa.Function) []ssa.Instruction {
+			return find(f, func(in ssa.Instruction) bool {
+				sel, ok := in.(*ssa.Select)
+				return ok && !sel.Blocking && selectHasRecv(sel, isSemIn(f))
+			})
+		}
+		// trigger functions: closures of the handler that take the token
+		triggers := map[*ssa.Function]bool{}
+		for _, cl := range ir.WithClosures(fn) {
+			if cl != fn && len(takes(cl)) > 0 {
+				triggers[cl] = true
+				c.R.Funcs[c.nm(cl)] = true
+			}
+		}
+		inline := map[ssa.Instruction]bool{}
+		for _, t := range takes(fn) {
+			inline[t] = true
+		}
+		isTrigger := func(in ssa.Instruction) bool {
+			if inline[in] {
+				return true
+			}
+			cc := ir.CallOf(in)
+			if cc == nil || cc.IsInvoke() {
+				return false
+			}
+			if _, isGo := in.(*ssa.Go); isGo {
+				return false
+			}
+			hit := false
+			ir.DerivesFrom(cc.Value, func(x ssa.Value) bool {
+				if mc, ok := x.(*ssa.MakeClosure); ok {
+					if f, ok := mc.Fn.(*ssa.Function); ok && triggers[f] {
+						hit = true
+					}
+				}
+				return hit
+			})
+			return hit
+		}
+		construct := c.nm(fn) + " | block events and ticks reach the rebroadcast trigger"
+		if len(triggers) == 0 && len(inline) == 0 {
+			c.fail(construct, c.P.Pos(fn.Pos()), "no non-blocking take of the rebroadcast semaphore found in broadcastHandler or its closures")
+			return
+		}
+		notif := c.field("blockntfns", "Subscription", "Notifications")
+		isNotifArm := func(sel *ssa.Select, st *ssa.SelectState) bool {
+			return sel.Blocking && st.Dir == types.RecvOnly && loadsField(notif)(st.Chan)
+		}
+		tC := c.field("time", "Ticker", "C")
+		isTickArm := func(sel *ssa.Select, st *ssa.SelectState) bool {
+			return sel.Blocking && st.Dir == types.RecvOnly && loadsField(tC)(st.Chan)
+		}
+		// the edge on which the received-ok flag of the handler's select is false
+		cut := ir.Cut{}
+		ir.Instrs(fn, func(in ssa.Instruction) {
+			sel, ok := in.(*ssa.Select)
+			if !ok || !sel.Blocking {
+				return
+			}
+			for _, r := range ir.Refs(sel) {
+				if e, ok := r.(*ssa.Extract); ok && e.Index == 1 {
+					for _, b := range ir.TrueBranches(e) {
+						if b.Pol >= 0 || b.Flip().Pol >= 0 {
+							cut[b.Other()] = true
+						}
+					}
+				}
+			}
+		})
+		c.mustFollowIter(fn, "block notification received", c.selectArms(fn, isNotifArm, "Notifications arm"), isTrigger, "the rebroadcast trigger (token take)", cut, 1)
+		c.mustFollowIter(fn, "interval tick", c.selectArms(fn, isTickArm, "ticker arm"), isTrigger, "the rebroadcast trigger (token take)", nil, 1)
+	})
+
 	c.rule("C15.G1", "broadcastHandler: a transaction enters the pending set only if the broadcast returned no error or a Mempool error; a rejected broadcast is answered with its error; every request gets exactly one reply", func() {
 		fn := c.fn(fnBHandler)
 		txMap := c.pendingTxMap(fn)
